@@ -57,6 +57,23 @@ M = [
  ("C13-bounds-ignored", "optimize/optimizer.py", "scipy.optimize.minimize(fquality, clamp.params, bounds=clamp.bounds, method=method)", "scipy.optimize.minimize(fquality, clamp.params, method=method)", ["C13"]),
  ("C13-rotation-link-sign", "optimize/links.py", "        if np.dot(cross_rad, self.axis) < 0:\n            angle = -angle", "        pass", ["C13"]),
  ("C13-sketch-backport-missing", "optimize/optimizer.py", "        self.sketch.update(self.grid.points)", "        pass", ["C13"]),
+ ("C06-facemap-left", "util/constants.py", '"left": (4, 0, 3, 7),', '"left": (4, 0, 3, 6),', ["C06"]),
+ ("C06-facemap-front-back-swapped", "util/constants.py", '"front": (4, 5, 1, 0),\n    "back": (7, 6, 2, 3),', '"front": (7, 6, 2, 3),\n    "back": (4, 5, 1, 0),', ["C06"]),
+ ("C06-no-merge-pairs", "lists/patch_list.py", '            out += f"\\t({pair[0]} {pair[1]})\\n"', '            pass', ["C06"]),
+ ("C06-vtk-off-by-one", "util/vtk_writer.py", 'output.write(f" {vertex.index}")', 'output.write(f" {vertex.index + 1}")', ["C06"]),
+ ("C06-vtk-drops-last-block", "util/vtk_writer.py", "        for block in blocks:\n            output.write(\"8\")", "        for block in blocks[:-1] or blocks:\n            output.write(\"8\")", ["C06"]),
+ ("C06-patch-type-lost", "items/patch.py", 'out += indent(f"type {self.kind};", 2)', 'out += indent("type patch;", 2)', ["C06"]),
+ ("C06-default-patch-kind-name-swapped", "lists/patch_list.py", "out += f\"\\tname {self.default['name']};\\n\"", "out += f\"\\tname {self.default['kind']};\\n\"", ["C06"]),
+ ("C06-zone-dropped", "mesh.py", "                block.cell_zone = operation.cell_zone\n", "", ["C06"]),
+ ("C06-geometry-overwrite", "lists/geometry_list.py", "self.geometry = {**self.geometry, **geometry}", "self.geometry = {**geometry}", ["C06"]),
+ ("C06-faces-top-skipped", "lists/face_list.py", '        self.add_face(vertices, "top", operation.top_face)\n', "", ["C06"]),
+ ("C06-side-projects-shifted", "lists/face_list.py", "            label = operation.side_projects[index]", "            label = operation.side_projects[(index + 1) % 4]", ["C06"]),
+ ("C06-vertex-projection-lost", "items/vertex.py", "        vertex.projected_to = point.projected_to\n", "", ["C06"]),
+ ("C06-settings-skipped", "mesh.py", "            if value is not None:\n                out += f\"{key} {value};\\n\"", "            if value is not None and key != \"mergeType\":\n                out += f\"{key} {value};\\n\"", ["C06"]),
+ ("C06-patch-settings-lost", "items/patch.py", "        for option in self.settings:\n            out += indent(f\"{option};\", 2)\n", "", ["C06"]),
+ ("C06-sphere-radius-wrong", "construct/shapes/sphere.py", 'f"radius {self.radius}",', 'f"radius {self.radius / 2}",', ["C06"]),
+ ("C06-patch-dup-side-kept", "items/patch.py", "                warnings.warn(f\"Side {side.description} has already been assigned to {self.name}\", stacklevel=2)\n                return\n", "                pass\n", ["C06"]),
+ ("C06-block-order-vertices", "items/block.py", 'fmt_vertices = "( " + " ".join(str(v.index) for v in self.vertices) + " )"', 'fmt_vertices = "( " + " ".join(str(v.index) for v in self.vertices[4:] + self.vertices[:4]) + " )"', ["C06"]),
 ]
 
 
